@@ -37,15 +37,39 @@ RENAMES = [("async_call", "call"), ("async_all", "all")]
 SKIP_KINDS = {"bind", "enter", "leave", "def", "assume"}
 
 
+PURE_BUILTINS = {"bool", "len", "isinstance", "str", "id", "hasattr", "callable", "iter", "list", "tuple"}
+
+
 def _canon_trace(ctx: Ctx, p: Path, drop_rtc: bool) -> List[str]:
+    """Semantic trace of a path: effectful calls, stores, decisions, loop heads, handlers, outcome - with helper
+    artefacts (inlined calls, objects built by helpers, `finally`/`with` markers, pure builtins) removed, conditions
+    written over what they test (`bool(q)` == `q`), and placeholders renumbered by first appearance."""
+    from ..kernel import expand1
+
     out: List[str] = []
     ren: Dict[str, str] = {}
     evs = p.events
     inlined = {e.idx for e in evs if e.kind == "call" and e.idx + 1 < len(evs) and evs[e.idx + 1].kind == "enter"}
+    pure = {f"$c{e.idx}" for e in evs if e.kind == "call" and isinstance(e.term.func, ast.Name) and e.term.func.id in PURE_BUILTINS
+            and e.x.get("callee") is not None and e.x["callee"].how == "builtin"}
+
+    class _Pure(ast.NodeTransformer):
+        def visit_Name(self, n):
+            if n.id in pure:
+                t = self.visit(expand1(n, evs))
+                if isinstance(t, ast.Call) and isinstance(t.func, ast.Name) and t.func.id == "bool" and len(t.args) == 1:
+                    return t.args[0]
+                return t
+            return n
 
     def canon(t) -> str:
         if t is None:
             return ""
+        import copy
+
+        t = _Pure().visit(copy.deepcopy(t))
+        if isinstance(t, ast.Call) and isinstance(t.func, ast.Name) and t.func.id == "bool" and len(t.args) == 1:
+            t = t.args[0]
         txt = show(t)
         for a, b in RENAMES:
             txt = re.sub(rf"\b{a}\b", b, txt)
@@ -56,42 +80,50 @@ def _canon_trace(ctx: Ctx, p: Path, drop_rtc: bool) -> List[str]:
                 ren[nm] = f"${m.group(1)}#{len(ren)}"
             return ren[nm]
 
-        return re.sub(r"\$([cpwk])\d+|\$(exc)\d+", lambda m: sub(m) if m.group(1) else "$exc", txt)
+        return re.sub(r"\$([cpwkl])\d+|\$(exc)\d+", lambda m: sub(m) if m.group(1) else "$exc", txt)
+
+    def push(item: str):
+        if out and out[-1] == item and item.startswith("branch "):
+            return  # the same decision observed twice in a row
+        out.append(item)
 
     for e in evs:
-        if e.kind in SKIP_KINDS:
+        if e.kind in SKIP_KINDS or e.kind in ("finally", "with", "alloc"):
             continue
         if e.kind == "call":
-            if e.idx in inlined:
+            if e.idx in inlined or f"$c{e.idx}" in pure:
                 continue
-            out.append("call " + canon(e.term))
+            push("call " + canon(e.term))
         elif e.kind == "prop":
-            out.append("read " + canon(e.term))
+            push("read " + canon(e.term))
         elif e.kind == "store":
-            out.append("store " + canon(e.term) + " = " + canon(e.x.get("value")))
+            if isinstance(e.term, ast.Attribute) and isinstance(e.term.value, ast.Name) and e.term.value.id.startswith("$new:"):
+                continue  # field of a helper object built on this path
+            push("store " + canon(e.term) + " = " + canon(e.x.get("value")))
         elif e.kind == "branch":
             if drop_rtc and show(e.term) == "self._rtc":
                 continue
-            out.append(f"branch {canon(e.term)} -> {e.x['taken']}")
+            push(f"branch {canon(e.term)} -> {e.x['taken']}")
         elif e.kind == "iter":
-            out.append(f"iter[{e.x.get('loop')}] {canon(e.term)}")
+            if e.x.get("loop") == "for":
+                push(f"iter {canon(e.term)}")
         elif e.kind == "exhaust":
-            out.append("exhaust " + canon(e.term))
+            push("exhaust " + canon(e.term))
         elif e.kind == "handler":
-            out.append("handler " + canon(e.term))
-        elif e.kind in ("finally", "throw"):
-            out.append(e.kind)
+            push("handler " + canon(e.term))
+        elif e.kind == "throw":
+            push("throw")
         elif e.kind == "await":
-            out.append("await " + canon(e.term))
+            push("await " + canon(e.term))
         elif e.kind == "return":
             if e.depth == 0:
-                out.append("return " + canon(e.term))
+                push("return " + canon(e.term))
         elif e.kind == "raise":
-            out.append("raise " + canon(e.term))
+            push("raise " + canon(e.term))
         elif e.kind == "comp":
-            out.append("comp " + canon(e.term))
-        elif e.kind in ("yield", "with", "delete"):
-            out.append(e.kind + " " + canon(e.term))
+            push("comp " + canon(e.term))
+        elif e.kind in ("yield", "delete"):
+            push(e.kind + " " + canon(e.term))
     out.append(f"=> {p.kind} {canon(p.value) if p.value is not None else ''}")
     return out
 
